@@ -380,6 +380,9 @@ func (w *World) RunConcurrent(fns []func(t *Task), spec SchedSpec, estTicks []in
 	var segs [][2]int64
 	strat := newStrategy(spec, n, estTicks)
 	w.lockP, w.lockRand = 0, nil
+	if spec.Strategy == "locks" {
+		spec.LockP = 1
+	}
 	if spec.Strategy != "explicit" && spec.LockP > 0 {
 		w.lockP, w.lockRand = spec.LockP, NewRand(Mix(spec.Seed, "locks"))
 	}
@@ -500,6 +503,11 @@ func newStrategy(spec SchedSpec, n int, est []int64) strategy {
 		}
 		sort.Slice(s.cps, func(i, j int) bool { return s.cps[i] < s.cps[j] })
 		return s
+	case "locks":
+		// lock-granular scheduling: a task runs until it is about to acquire a lock (LockP = 1 ends
+		// its quantum there) or finishes; then any runnable task continues. Interleavings of the
+		// critical sections of lock-protected shared state are few, so they get covered quickly.
+		return &randomStrat{r: r, k: int64(infQuantum / 4)}
 	default: // serial in seeded random order
 		return &serialStrat{order: r.Perm(n)}
 	}
